@@ -36,6 +36,12 @@ Is(ev) == l <= Len(Trace) /\ E.ev = ev
 RunObs(ret, pan, ok, line) ==
   [returned |-> ret, panicked |-> pan, ok |-> ok, line |-> line, nlines |-> E.nlines, leaked |-> E.leaks]
 
+\* a refusal before any text is looked at (font without usable character map, E.pre # "ok") owes no
+\* particular result, but it must return, not panic and leave no goroutine -- like every other outcome
+EarlyOK ==
+  /\ E.runs >= 1 /\ E.returned = E.runs /\ E.oks + E.errs + E.panics = E.returned
+  /\ CleanOutcome([returned |-> TRUE, panicked |-> E.panics > 0, leaked |-> E.leaks])
+
 ParseOK ==
   /\ E.runs >= 1
   /\ E.returned = E.runs                                    \* no run hung (watchdog)
@@ -51,6 +57,7 @@ RoundTripOK ==
   /\ Conforms(E.shape, E.before)
   /\ E.perr = ""
   /\ E.after = E.before
+  /\ FormatsKept(E.before, E.bfmt, E.afmt)
 
 MeanOK ==
   /\ E.mid \in 1..Len(Descs)
@@ -58,7 +65,7 @@ MeanOK ==
   /\ E.ppanic = "" /\ E.returned /\ E.leaks = 0 /\ E.perr = ""
   /\ E.got = Meaning(Descs[E.mid])
 
-EventOK == CASE E.ev = "parse" -> ParseOK
+EventOK == CASE E.ev = "parse" -> IF E.pre = "ok" THEN ParseOK ELSE EarlyOK
              [] E.ev = "rt"    -> RoundTripOK
              [] E.ev = "mean"  -> MeanOK
              [] OTHER          -> FALSE
